@@ -8,7 +8,10 @@ use crate::Ctx;
 use sdjwt::Algorithm;
 use serde_json::{json, Value};
 
-pub fn gen_redactions(rng: &mut Rng, ic: &IssuedCase) -> Vec<Vec<String>> {
+/// redaction lists for one token. `with_junk`: also paths that are not disclosable, do not exist or are no
+/// pointers at all - C02's second sentence ("changes nothing") is about those; the other properties that
+/// redact (C05, C06, C08, C09) say nothing about them and use paths of disclosable claims only
+pub fn gen_redactions(rng: &mut Rng, ic: &IssuedCase, with_junk: bool) -> Vec<Vec<String>> {
     let mut sets: Vec<Vec<String>> = Vec::new();
     let paths: Vec<String> = ic.marks.iter().map(|m| ic.holder_path(m.id)).collect();
     // nothing, everything, random subsets, ancestors only, junk
@@ -21,6 +24,12 @@ pub fn gen_redactions(rng: &mut Rng, ic: &IssuedCase) -> Vec<Vec<String>> {
     let parents: Vec<String> = ic.marks.iter().filter(|m| ic.marks.iter().any(|c| c.ancestors.contains(&m.id))).map(|m| ic.holder_path(m.id)).collect();
     if !parents.is_empty() {
         sets.push(vec![rng.pick(&parents).clone()]);
+    }
+    if !with_junk {
+        let mut some: Vec<String> = paths.iter().filter(|_| rng.chance(1, 2)).cloned().collect();
+        rng.shuffle(&mut some);
+        sets.push(some);
+        return sets;
     }
     // paths that are not disclosable / do not exist / near misses
     let mut junk: Vec<String> = vec!["".into(), "/".into(), "/nope".into(), "nope".into(), "/0".into(), "//".into()];
@@ -67,7 +76,7 @@ pub fn run_case(ctx: &mut Ctx, case: &Value) {
     let mut rng = Rng::fork(ctx.seed ^ 0xC02, crate::report::hash_of(&case["tree"]));
     let sets: Vec<Vec<String>> = match case.get("redactions").and_then(|r| r.as_array()) {
         Some(a) => a.iter().map(|s| s.as_array().cloned().unwrap_or_default().iter().filter_map(|x| x.as_str().map(|y| y.to_string())).collect()).collect(),
-        None => gen_redactions(&mut rng, &ic),
+        None => gen_redactions(&mut rng, &ic, true),
     };
     let kept: Vec<Vec<usize>> = sets.iter().map(|r| kept_ids(&ic, r)).collect();
     let expected = projects(ctx, &ic, &kept);
